@@ -23,9 +23,14 @@ through; `break` in the body lands just past ITER, `continue` on ITER; the itera
 `rinit`, `rnext`, `rdone`): any number of passes ending normally or by `continue`, then exhaustion,
 a pass that breaks, or one that returns (`rng_prefix`, `rng_run`).
 
-PARTIAL: tagged switches' hidden tag variable and the staged peephole passes are
-not in this theorem; they are covered by the instruction-for-instruction correspondence of the
-emitted jump skeleton, by C07's verifier on all emitted code, and by Go-toolchain runs of nests
+A tagged switch `switch t { case a, b: … }` is the same scheme over derived leaves: `seq (act tag)
+(swc …)` where the tag leaf ends in `LOCALSET hidden` and a clause's condition leaf is
+`value; LOCALGET hidden; EQ` (several values chained by OR) - the correspondence harness builds
+exactly these leaves and compares the whole function body.
+
+PARTIAL: the iterators behind RANGE are abstract here (strings: C13), and the staged peephole
+passes enter through C02.opt_transparent and the instruction-for-instruction correspondence of the
+emitted code; C07's verifier checks all emitted code, and Go-toolchain runs cover nests
 enumerated exhaustively for small depths.
 -/
 namespace Goat.Props.C06
